@@ -36,19 +36,21 @@ class Instance:
     fenc/aenc in {"N","L"}: "N" frequency = j*fscale, amplitude = level*ascale;
     "L" frequency = exp(j/q), amplitude = exp(level/q)."""
 
-    def __init__(self, nf, fenc="N", aenc="N", fscale=0.02, q=4.0, ascale=1.0, azimuths=None):
+    def __init__(self, nf, fenc="N", aenc="N", fscale=0.02, q=4.0, ascale=1.0, azimuths=None, alias=False):
         self.nf, self.fenc, self.aenc, self.fscale, self.q, self.ascale = nf, fenc, aenc, fscale, q, ascale
         self.azimuths = azimuths
+        self.alias = alias      # spell the lognormal distribution with its documented alias "log-normal"
         j = np.arange(1, nf + 1, dtype=float)
         self.freq = j * fscale if fenc == "N" else np.exp(j / q)
-        self.dist_f = "normal" if fenc == "N" else "lognormal"
-        self.dist_a = "normal" if aenc == "N" else "lognormal"
+        lname = "log-normal" if alias else "lognormal"
+        self.dist_f = "normal" if fenc == "N" else lname
+        self.dist_a = "normal" if aenc == "N" else lname
         self._unhz = {None: NOEND}
         for h in range(-4, 2 * nf + 8):
             self._unhz[self.hz(h)] = h
 
     def name(self):
-        return f"f{self.fenc}a{self.aenc}"
+        return f"f{self.fenc}a{self.aenc}" + ("~alias" if self.alias else "")
 
     def amp(self, levels):
         a = np.array(levels, dtype=float)
